@@ -92,12 +92,14 @@ fn specs(unit: &Value) -> Vec<(bool, RpcSpec, Option<String>)> {
                 // several requests on ONE route whose header maps are rearrangements of each other:
                 // the same names with the values exchanged, and one value repeated under two names
                 let ab = unit["ab"].as_bool().unwrap();
-                let mk = |id: &str, from: &str, to: &str, n: u64| RpcSpec::new(id).route("/same").header("h-from", from).header("h-to", to).body(pattern_body(n, 20 + n as usize));
-                let mk2 = |id: &str, v: &str, n: u64| RpcSpec::new(id).route("/same").header("h-request-id", v).header("h-trace-id", v).body(pattern_body(n, 20 + n as usize));
+                // (the request id the harness tracks is itself a header, so it takes part: the
+                // same names with the values exchanged between `id` and `h-peer`, and one value
+                // repeated under both names)
+                let mk = |id: &str, peer: &str, n: u64| RpcSpec::new(id).route("/same").header("h-peer", peer).body(pattern_body(n, 20 + n as usize));
                 return if variant == 8 {
-                    vec![(ab, mk("s1", "alice", "bob", 1), None), (ab, mk("s2", "bob", "alice", 2), None), (!ab, mk("s3", "bob", "alice", 3), None), (ab, mk("s4", "alice", "bob", 4), None)]
+                    vec![(ab, mk("alice", "bob", 1), None), (ab, mk("bob", "alice", 2), None), (!ab, mk("carol", "dave", 3), None), (!ab, mk("dave", "carol", 4), None)]
                 } else {
-                    vec![(ab, mk2("t1", "id-1", 1), None), (ab, mk2("t2", "id-2", 2), None), (!ab, mk2("t3", "id-3", 3), None), (ab, mk2("t4", "id-1", 4), None)]
+                    vec![(ab, mk("t1", "t1", 1), None), (ab, mk("t2", "t2", 2), None), (!ab, mk("t3", "t3", 3), None), (ab, mk("t4", "t4", 4), None)]
                 };
             }
             vec![(unit["ab"].as_bool().unwrap(), s, None), (!unit["ab"].as_bool().unwrap(), other, None)]
